@@ -408,8 +408,49 @@ def st_api_case(draw):
     return {"version": gen.choice(r, ["gfa1", "gfa2"]), "vlevel": r.randrange(4), "ops": ops}
 
 
+def prop_fuzz(case):
+    if "atheris_stats" in case:
+        return {"nt": False, "atheris_campaigns": True, "atheris_runs": case["atheris_stats"].get("runs_bucket")}
+    return prop_text(case)
+
+
+def enum_atheris(shard, nshards):
+    """One libFuzzer campaign per shard (Atheris, coverage-guided, gfapy instrumented); the
+    leaks it records are yielded as cases and re-checked by the plain oracle."""
+    import json as _json
+    import re as _re
+    import subprocess
+    import sys as _sys
+    here = os.path.dirname(os.path.dirname(os.path.dirname(os.path.abspath(__file__))))
+    secs = int(os.environ.get("VERIF_C07_FUZZ_SECONDS", "150"))
+    seed = int(os.environ.get("VERIF_SEED", "1")) * 1000 + shard + 1
+    d = tempfile.mkdtemp(prefix="vfc07fz")
+    try:
+        os.makedirs(os.path.join(d, "corpus"))
+        out = os.path.join(d, "leaks.json")
+        env = dict(os.environ, PYTHONPATH=here + os.pathsep + os.path.join(here, ".deps"))
+        r = subprocess.run([_sys.executable, "-m", "vf.fuzz.c07_atheris", out, "-max_total_time=%d" % secs, "-seed=%d" % seed,
+                            "-max_len=400", "-timeout=60", os.path.join(d, "corpus")], cwd=here, env=env, capture_output=True, text=True)
+        m = _re.search(r"Done (\d+) runs", r.stderr + r.stdout)
+        runs = int(m.group(1)) if m else 0
+        if not os.path.exists(out) or (m is None and "atheris" in (r.stderr + r.stdout) and "No module" in (r.stderr + r.stdout)):
+            return  # atheris not available: the part contributes nothing (Hypothesis parts decide)
+        yield {"atheris_stats": {"runs": runs, "runs_bucket": "%dk" % (runs // 1000), "seconds": secs, "seed": seed}}
+        try:
+            leaks = _json.load(open(out))
+        except Exception:
+            leaks = []
+        for l in leaks:
+            yield l["case"]
+    finally:
+        shutil.rmtree(d, ignore_errors=True)
+
+
 def parts(tier):
     q = tier == "quick"
     return [Part("text", prop_text, strategy=st_text_case(), n=2500 if q else 15000, quick_shards=4),
             Part("mutants", prop_mutant, strategy=st_mutant_case(), n=1500 if q else 12000, quick_shards=4),
-            Part("api", prop_api, strategy=st_api_case(), n=1200 if q else 8000, quick_shards=4)]
+            Part("api", prop_api, strategy=st_api_case(), n=1200 if q else 8000, quick_shards=4)] + (
+        [] if q else [Part("atheris", prop_fuzz, enum=enum_atheris,
+                           note="16 libFuzzer campaigns (Atheris, gfapy instrumented) of VERIF_C07_FUZZ_SECONDS (150) s each; "
+                                "evaluations counts only the re-checked records, the number of fuzzer executions is in the labels")])
